@@ -20,7 +20,8 @@ Trace records (tuples, first element is the kind):
   ("log", event, fields)                      fields as sorted tuple of pairs
   ("handler", which, attempt, delay, decision)
   ("bsleep", which, attempt, delay)           before_sleep
-  ("sleep", which, arg, t0, t1)               sleeper (which = policy|call|default)
+  ("sleep", which, arg, t0, t1[, exc_idx])    sleeper (which = policy|call|default); exc_idx
+                                              when the sleeper raised a cancellation-type exception
   ("brk", method, arg, result, state_after)   breaker spy
   ("susp", tag, action)                       coroutine suspended at tag; action taken by driver
   ("end", ...)                                how the call ended, see World._end_*
@@ -437,8 +438,9 @@ class World:
         over = self.cfg["overshoot"]
         o = over[self.ch.choose("over", len(over), self.cfg["over_free"])] if len(over) > 1 else over[0]
         if isinstance(o, str):  # sleeper raising a cancellation-type exception
-            self.trace.append(("sleep", which, ticks(s), t0, t0))
-            raise FAULT_TYPES[o]()
+            exc = FAULT_TYPES[o]()
+            self.trace.append(("sleep", which, ticks(s), t0, t0, self.reg(exc)))
+            raise exc
         E.advance(s)
         E.advance(o * TAU)
         self.trace.append(("sleep", which, ticks(s), t0, self.rel()))
